@@ -35,10 +35,12 @@ func optionSet(r *Rng) ([]cfgpkg.Option, string) {
 }
 
 // one stream: a history generated from its own seed, produced and consumed; returns the canonical keys per batch
-func runStream(seed uint64, yield func()) (out []string, errs int) {
+func runStream(seed uint64, yield func(), shared int) (out []string, errs int) {
 	r := NewRng(seed)
-	g := &OGen{r: r.Fork(), Wide: r.Chance(40)}
+	g := &OGen{r: r.Fork(), Wide: r.Chance(40), Mono: monoPick(r)}
 	options, _ := optionSet(r)
+	// every allocation of the producer is a scheduling point of the cooperative scheduler
+	options = append(options, cfgpkg.WithAllocator(&yieldAllocator{inner: memory.NewGoAllocator(), yield: yield}))
 	p := arrow_record.NewProducerWithOptions(options...)
 	c := arrow_record.NewConsumer()
 	defer p.Close()
@@ -46,13 +48,23 @@ func runStream(seed uint64, yield func()) (out []string, errs int) {
 	mode := r.Intn(4)
 	nb := 2 + r.Intn(5)
 	leanBase := 0
+	if shared > 0 {
+		// shared vocabulary: every stream of the case carries the same signal with the same one or two
+		// names / keys / values, in tables of different (large) sizes — state leaking from one instance into
+		// another (sorters, delta encoders, dictionaries) changes what the other one decodes
+		g.Mono = 1 + r.Intn(2)
+		g.Wide = false
+		mode = shared - 1
+	}
 	for b := 0; b < nb; b++ {
 		sig := mode
 		if mode == 3 {
 			sig = r.Intn(3)
 		}
 		var data any = genAnyN(g, r, sig, 1+r.Intn(8))
-		if r.Chance(25) {
+		if shared > 0 {
+			data = genAnyN(g, r, sig, 20+r.Intn(120))
+		} else if r.Chance(25) {
 			data = leanBatch(sig, 100+r.Intn(200), 1, &leanBase)
 		}
 		if itemCount(data) == 0 {
@@ -114,6 +126,72 @@ func runStream(seed uint64, yield func()) (out []string, errs int) {
 	return
 }
 
+// yieldAllocator calls yield before every allocator operation.
+type yieldAllocator struct {
+	inner memory.Allocator
+	yield func()
+}
+
+func (a *yieldAllocator) Allocate(size int) []byte { a.yield(); return a.inner.Allocate(size) }
+func (a *yieldAllocator) Reallocate(size int, b []byte) []byte {
+	a.yield()
+	return a.inner.Reallocate(size, b)
+}
+func (a *yieldAllocator) Free(b []byte) { a.yield(); a.inner.Free(b) }
+
+// coop is a cooperative scheduler: exactly one of the registered goroutines runs at any time; at a
+// scheduling point the running one may hand over to another (PRNG decision), so a schedule is a
+// function of the seed and every interleaving at the granularity of scheduling points is reachable.
+type coop struct {
+	r        *Rng
+	wake     []chan struct{}
+	alive    []bool
+	switches int
+	points   int
+	pct      int
+}
+
+func newCoop(r *Rng, n, pct int) *coop {
+	c := &coop{r: r, pct: pct}
+	for i := 0; i < n; i++ {
+		c.wake = append(c.wake, make(chan struct{}, 1))
+		c.alive = append(c.alive, true)
+	}
+	return c
+}
+
+func (c *coop) other(id int) int {
+	var cand []int
+	for j, a := range c.alive {
+		if a && j != id {
+			cand = append(cand, j)
+		}
+	}
+	if len(cand) == 0 {
+		return -1
+	}
+	return cand[c.r.Intn(len(cand))]
+}
+
+func (c *coop) yield(id int) {
+	c.points++
+	if !c.r.Chance(c.pct) {
+		return
+	}
+	if j := c.other(id); j >= 0 {
+		c.switches++
+		c.wake[j] <- struct{}{}
+		<-c.wake[id]
+	}
+}
+
+func (c *coop) done(id int) {
+	c.alive[id] = false
+	if j := c.other(id); j >= 0 {
+		c.wake[j] <- struct{}{}
+	}
+}
+
 func runIndep(o opts, out *Output) {
 	out.Imports = "From Verif Require Import Base.ListX."
 	r := NewRng(o.seed)
@@ -124,9 +202,17 @@ func runIndep(o opts, out *Output) {
 		for i := range seeds {
 			seeds[i] = r.U64()
 		}
+		shared := 0
+		if c%2 == 1 {
+			shared = 1 + (c/2)%3
+			if nStreams > 4 {
+				nStreams = 4
+				seeds = seeds[:4]
+			}
+		}
 		solo := make([][]string, nStreams)
 		for i, s := range seeds {
-			solo[i], _ = runStream(s, func() {})
+			solo[i], _ = runStream(s, func() {}, shared)
 		}
 		conc := make([][]string, nStreams)
 		var wg sync.WaitGroup
@@ -136,7 +222,7 @@ func runIndep(o opts, out *Output) {
 			go func(i int, s uint64) {
 				defer wg.Done()
 				<-gate
-				conc[i], _ = runStream(s, func() {})
+				conc[i], _ = runStream(s, func() {}, shared)
 			}(i, s)
 		}
 		close(gate)
@@ -150,8 +236,36 @@ func runIndep(o opts, out *Output) {
 			}
 			stats["batches"] += len(solo[i])
 		}
+		// the same streams under the cooperative scheduler: one goroutine runs at a time and hands over at
+		// allocation points (inside the encoders' loops), deterministically from the seed
+		for rep := 0; rep < 3; rep++ {
+			schedSeed := r.U64()
+			co := newCoop(NewRng(schedSeed), nStreams, []int{5, 25, 60}[rep])
+			coopOut := make([][]string, nStreams)
+			var wg2 sync.WaitGroup
+			for i, s := range seeds {
+				wg2.Add(1)
+				go func(i int, s uint64) {
+					defer wg2.Done()
+					<-co.wake[i]
+					defer co.done(i)
+					coopOut[i], _ = runStream(s, func() { co.yield(i) }, shared)
+				}(i, s)
+			}
+			co.wake[0] <- struct{}{}
+			wg2.Wait()
+			for i := range seeds {
+				if fmt.Sprint(solo[i]) != fmt.Sprint(coopOut[i]) {
+					same = false
+					out.Violation("C16", "interleaved-differs-from-solo", fmt.Sprintf("stream %d of %d decodes differently when its encoder steps are interleaved with those of the other streams than when run alone", i, nStreams),
+						map[string]any{"seed": o.seed, "case": c, "stream": i, "stream_seed": seeds[i], "schedule_seed": schedSeed, "switch_pct": co.pct})
+				}
+			}
+			stats["sched_points"] += co.points
+			stats["sched_switches"] += co.switches
+		}
 		stats["streams"] += nStreams
-		out.AddCase(map[string]any{"case": c, "streams": nStreams, "same_as_solo": same}, true, fmt.Sprintf("streams=%d", nStreams))
+		out.AddCase(map[string]any{"case": c, "streams": nStreams, "shared_vocabulary_signal": shared, "same_as_solo": same}, true, fmt.Sprintf("streams=%d shared=%d", nStreams, shared))
 	}
 	out.Extra["stats"] = stats
 }
@@ -164,7 +278,7 @@ func runMemory(o opts, out *Output) {
 	stats := map[string]int{}
 	tm, lm, mm := &ptrace.ProtoMarshaler{}, &plog.ProtoMarshaler{}, &pmetric.ProtoMarshaler{}
 	for c := 0; c < o.n; c++ {
-		g := &OGen{r: r.Fork(), Wide: r.Chance(40)}
+		g := &OGen{r: r.Fork(), Wide: r.Chance(40), Mono: monoPick(r)}
 		options, optName := optionSet(r)
 		pool := memory.NewCheckedAllocator(memory.NewGoAllocator())
 		options = append(options, cfgpkg.WithAllocator(pool))
